@@ -642,13 +642,15 @@ partial def judgeLine (line : String) : String :=
   | ["prjn", hn, call, h, _] =>
     -- the reference of a layer is what ITS OWN .prj says, whatever the layer is called and whatever lies next to it
     let cls := s!"prjn-{call}-{match unhex hn with | some n => (if n.contains '/' then "dir-" else "") ++ s!"{(n.filter (· == '.')).length}dots" | none => "?"}"
-    match unhex h, rhs with
+    -- "!" = the layer has no .prj of its own (`decoderSR none`: the read fails)
+    match (if h = "!" then some [] else unhex h), rhs with
     | some d, "S" :: r1 =>
       let (rs, r2) := takeRes r1
       let (rp, _) := takeRes (r2.drop 1)
-      if rs ≠ rp then s!"SPEC {cls} Decoder.SR-of-a-named-layer-differs-from-Parse-of-its-own-.prj:{firstDiff rp rs}"
+      if h = "!" && rs.head? ≠ some "err" then s!"SPEC {cls}-missing Decoder.SR-of-a-layer-without-.prj-does-not-fail:{rs.headD "?"}"
+      else if rs ≠ rp then s!"SPEC {cls} Decoder.SR-of-a-named-layer-differs-from-Parse-of-its-own-.prj:{firstDiff rp rs}"
       else
-        let m : Except Err (SR Float) := parse d
+        let m : Except Err (SR Float) := decoderSR (if h = "!" then none else some d)
         match cmpModel "prjn" m rs with
         | some df => s!"DIFF {cls} {df}"
         | none => s!"OK {cls}-{rs.headD "?"}"
